@@ -299,6 +299,11 @@ func (w *World) metamorphicPass(baseDir string, opts RunOpts, variant string) bo
 		return false
 	}
 	for _, v := range r2.Violations {
+		if v.Shape != "" {
+			// the second pass ran into the shape of a listed finding: not a verdict of this relation
+			w.Probes.Hit("metamorphic.second-pass-hit-known-shape")
+			return true
+		}
 		w.violate("metamorphic."+v.Check, append([]string{"C05"}, v.Props...), v.Height, "with failed transactions removed (variant %s): %s", variant, v.Detail)
 		return true
 	}
@@ -318,6 +323,9 @@ func (w *World) metamorphicPass(baseDir string, opts RunOpts, variant string) bo
 				props := []string{"C05"}
 				if w.tamperedAt[h] {
 					props = append(props, "C03") // a tx whose signature does not verify was among the removed ones
+				}
+				if w.duplicateAt[h] {
+					props = append(props, "C04") // a re-submitted, already executed tx was among the removed ones
 				}
 				w.violate("metamorphic.failed-tx-effect", props, h, "tx %d of block %d answers %s in the full history and %s when failed transactions before it are removed (variant %s; log %q)", keep[k].idx, h, keep[k].dig, digestTx(d), variant, d.Log)
 				return true
